@@ -194,6 +194,7 @@ def run(F, res, tier):
     from rules import c11 as _c11
     _c11.value_equality_rules(F, res, rule="Q7", rule2="Q8")
     no_double_descent(F, res)
+    every_file_has_a_tree_of_its_own(F, res)
     from rules import c09 as _c09
     _c09.groups_scan_every_body(F, res, rule="Q11")
 
@@ -683,3 +684,29 @@ def cycles_are_cut(F, res, sccs=None, rule="Q10"):
             ok, why = False, "no cut is known for this cycle of the query graph: recovery alone does not survive memo validation"
         res.ob(rule, "cut/" + key, "this cycle of the query graph cannot happen on any workspace (salsa panics when it re-validates a memo "
                "on a cycle, recovery or not)", ok, where="crates/ide/src/def/scope.rs, crates/ide/src/ty/infer.rs", how=why)
+
+
+def every_file_has_a_tree_of_its_own(F, res, rule="Q13"):
+    """Q13: Semantics identifies the file a node belongs to by the identity of the tree's root (reviewed assert in
+    Semantics::cache: "two files never share one parse result"). That holds because the parse query is keyed by the file:
+    every call of syntax::parse_module in crate ide sits in a function whose key parameter is a FileId and whose text comes
+    from file_content of that very key. A parse memoised by the text itself hands two files with identical text one tree,
+    and references / highlight / rename on them die in that assert."""
+    n, bad = 0, []
+    for p_, f in sorted(F.fns.items()):
+        if not p_.startswith(("ide::", "<ide::")) or not f.blocks or "::tests::" in p_ or p_.startswith("ide::tests"):
+            continue
+        d = None
+        for b, t in f.calls():
+            if (callee(t) or "") != "syntax::parser::parse_module":
+                continue
+            d = d or FL.Defs(f)
+            n += 1
+            keyed = [i for i in range(1, f.d["arg_count"] + 1) if "FileId" in str(f.local_ty(i) or "")]
+            dep = FL.depends(F, f, d, t["args"][0], use_bb=b)
+            from_key = any(c.endswith("file_content") for c in dep["calls"]) and bool(set(keyed) & set(dep["args"]))
+            if not keyed or not from_key:
+                bad.append("%s: key parameters %s, text depends on %s" % (FL.short(p_), [str(f.local_ty(i)) for i in range(1, f.d["arg_count"] + 1)][1:],
+                                                                      sorted(FL.short(c) for c in dep["calls"])[:4]))
+    res.ob(rule, "parse/keyed-by-file", "a syntax tree is built per file: parse_module is called on file_content(file) in a function keyed by that FileId",
+           n >= 1 and not bad, where="crates/ide/src/def/mod.rs", how="parse_module calls in crate ide: %d; %s" % (n, "; ".join(bad) if bad else "each keyed by its file"))
